@@ -229,13 +229,14 @@ def cases(tier, rng):
     binop("clean-divide-degenerate", "clean_divide", "b", bl(rpoly(rng, 5)), [], 0, 2)
     binop("clean-divide-degenerate", "clean_divide", "b", [], [])
     binop("clean-divide-degenerate", "clean_divide", "b", bl(rpoly(rng, 5)), bl([7]))
-    # zero dividend against a divisor with root 0: Polynomial::zero() stores no coefficient (`dividend_coefficients[0]`)
+    # zero dividend against a divisor with root 0: Polynomial::zero() stores no coefficient (index panic before 8b5e451)
     for d in (3, 511, 512, 600):
         dv = bl([0] + rpoly(rng, d - 1))
         for ka in (0, 1, 3):
             binop("clean-divide-zero-dividend-root0", "clean_divide", "b", [], dv, ka, 0)
         binop("clean-divide-zero-dividend-root0", "clean_divide", "b", [], bl([0, 0] + rpoly(rng, d - 2)))
-    # 6. divisors vanishing on the evaluation coset offset * <w_order>, offset = the extension element x:
+    # 6. divisors vanishing on the evaluation coset offset * <w_order>, offset = the extension element x (batch-inversion
+    #    panic before 87d4e9b; now the NTT arm falls back to long division):
     #    multiples of X^3 - w^(2i) X + w^(3i); order = next_power_of_two(deg dividend + 1) (after removal of a root 0)
     for (d, dq) in ((3, 1), (5, 10), (100, 27), (511, 90), (512, 90), (602, 200), (513, 1023 - 513)) + (((600, 1100),) if big else ()):
         order = npo2(d + dq + 1)
@@ -332,17 +333,3 @@ def cases(tier, rng):
         d, dq = rng.choice((1, 2, 7, 30, 90)), rng.choice((0, 1, 4, 50))
         clean("random", rpoly(rng, d), rpoly(rng, dq))
     return out
-
-
-def finding_key(case, impl, model):
-    """Genuine, confirmed defect: clean_divide (production cutoff, divisor degree >= 512) panics with "Cannot do batch
-    inversion on zero" although the division is clean, because the divisor vanishes on the evaluation coset x*<w>.
-    The oracle tags exactly this class: the faithful model panics too, the long-division spec gives the quotient."""
-    t = case.split()
-    if t and t[0] == "clean_divide" and impl == "PANIC" and model.startswith("SPECDIFF model=PANIC spec=") \
-            and model.endswith("why=divisor-vanishes-on-coset"):
-        return "clean-divide-root-on-coset"
-    if t and t[0] == "clean_divide" and impl == "PANIC" and model.startswith("SPECDIFF model=PANIC spec=0 ") \
-            and model.endswith("why=empty-dividend-divisor-root0"):
-        return "clean-divide-empty-dividend-root0"
-    return None
